@@ -14,7 +14,7 @@ inductive Err
   | tplNotFound | interrupt | breakLoop | contLoop
   | modNoArgs | modPoorArgs | modNoStr | condHlpNotFound | senseless
   | wrongLoopLim | wrongLoopCond | wrongLoopOp | unknownCtl | unknownType
-  | writer | unknownInspector | unknownPool | userFail | unsupported | outOfFuel
+  | writer | unknownInspector | unknownPool | userFail | unsupported | outOfFuel | incDepth
   deriving DecidableEq, Repr, Inhabited
 
 /-- One variable slot: exactly one representation is live (after the repair of `Set*`). -/
@@ -53,6 +53,7 @@ structure Ctx where
   chHE : Bool := false
   chUE : Bool := false
   brkD : Nat := 0
+  incD : Nat := 0                   -- depth of nested includes
   err : Option Err := none          -- ctx.Err
   dfr : List Nat := []              -- deferred function tags, in registration order
   ipv : List Nat := []              -- objects acquired from pools
@@ -539,6 +540,9 @@ structure LoopRes where
   abort : Bool
   deriving Inhabited
 
+/-- `maxIncDepth` of dyntpl.go. -/
+def maxIncDepth : Nat := 128
+
 /-- Body and optional else-branch of a loop node (`child[0]` true-wrapper, `child[1]` false-wrapper;
     without an else the children are the body itself). -/
 def loopParts (child : List Node) : List Node × Option (List Node) :=
@@ -732,8 +736,10 @@ def writeNode (reg : Registry) : Nat → Node → St → Res
       match reg.getBKeys names with
       | none => fail s .tplNotFound
       | some nodes =>
+        if s.c.incD ≥ maxIncDepth then fail s .incDepth else
         -- nested write into a scratch buffer (a writer that cannot fail), then one copy out
-        inclFinish s (writeTree reg f nodes { c := s.c, w := {} })
+        let r := writeTree reg f nodes { c := { s.c with incD := s.c.incD + 1 }, w := {} }
+        inclFinish s { r with st := { r.st with c := { r.st.c with incD := r.st.c.incD - 1 } } }
     | .exit => fail s .interrupt
     | .jsonQ => ok { s with c := { s.c with chJQ := true } }
     | .endJsonQ => ok { s with c := { s.c with chJQ := false } }
